@@ -3,6 +3,8 @@ import NTV.Proofs.Lemmas.DecompProofsA
 import NTV.Proofs.Lemmas.DecompProofsC
 import NTV.Proofs.C16
 import NTV.Proofs.Lemmas.KummerDedekindG
+import NTV.Proofs.Lemmas.NoPanicDecompose
+import NTV.Proofs.Lemmas.MaxOrderClosedD
 import NTV.Proofs.C14
 import Mathlib.NumberTheory.Zsqrtd.GaussianInt
 import Mathlib.Algebra.Polynomial.SpecificDegree
@@ -668,5 +670,157 @@ example : ¬ ((2 : ℤ) • e 2 ⟨0, by decide⟩ ∈ Lat 2 ([[4, 0], [0, 2]] :
   exact absurd this (by decide)
 
 end examples
+
+/-! ## Kummer–Dedekind for the maximal order computed by Round 2 (C06): no integral-closedness hypothesis left
+
+`O` is the result of `find_integral_basis(f)` and `t` the table returned by `get_mult_table` on it. For monic `f`
+the starting order of Round 2 is ℤ[θ], so ℤ[θ] ⊆ O (`NTV.MaxOrd.findIntegralBasis_contains_power_basis`); ω_0 = 1
+(`NTV.Round2.GoodOrder.first_row`); and for irreducible `f` the ring of the table is integrally closed because `O` is
+contained in no strictly larger order (`NTV.C16.maximal_order_integrally_closed`). -/
+section MaximalOrder
+open NTV.KD Polynomial
+open NTV.PolyG (toPoly)
+
+/-- the standing hypotheses of the Kummer–Dedekind section hold for the Round 2 output (f monic of degree n ≥ 1):
+`O` is an n × n basis matrix containing ℤ[θ] (`Cm · O = 1`, `Cm` integral) with first row (1, 0, …, 0), and
+`get_mult_table` succeeds on it -/
+theorem maximal_order_setting (f : List Int) (n : Nat) (hfl : f.length = n + 1) (hmonic : lc f = 1)
+    (O : QMat) (hO : NTV.Round2.findIntegralBasis f = .ok O) :
+    Rect n n O ∧ (∃ Cm : Matrix (Fin n) (Fin n) ℤ, Cm.map (Int.castRingHom ℚ) * toM n n O = 1) ∧
+      O.getD 0 [] = 1 :: List.replicate (n - 1) 0 ∧
+      ∃ t : Table, NTV.Ord.getMultTable O f = .ok t ∧ NTV.Ord.IsTable f O n t := by
+  obtain ⟨hdeg, hco, hcanon⟩ := NTV.MaxOrd.coefAt_degU_of_monic f n hfl hmonic
+  subst hdeg
+  have g := NTV.Round2.findIntegralBasis_good f hcanon O hO
+  obtain ⟨ht, _⟩ := g.setup.ctx_of_closed g.closed
+  exact ⟨g.setup.rect, NTV.MaxOrd.findIntegralBasis_contains_power_basis f hco O hO, g.first_row, _,
+    g.setup.getMultTable_ok (g.setup.closed_iff.mp g.closed), ht⟩
+
+/-- **C17 for the maximal order computed by `find_integral_basis`** (Kummer–Dedekind, Cohen 4.8.13) — FULL, no
+hypothesis on the ring of the table: `f` monic of degree n ≥ 1, irreducible over ℚ; `O` the result of
+`find_integral_basis(f)`; `t` the table returned by `get_mult_table` on `O`; `p` prime; the run of `decompose` on the
+draw stream `s` (universally quantified) returned `res` (so p ∤ (O : ℤ[θ])). With (g_i, e_i) the factors of f modulo p
+found by the run: the returned pairs are (P_i, e_i) with P_i prime — indeed maximal — ideals of O,
+`norm P_i = p^{deg g_i}`, `cap_z P_i = p`, P_i ∩ ℤ = pℤ, pairwise distinct (comaximal), Σ e_i·deg g_i = n, and the
+model's product ∏ P_i^{e_i} is (p) = `principal (p, 0, …, 0)` (identical normal forms, no panic). -/
+theorem kummer_dedekind_maximal_order (f : List Int) (n : Nat) (hn : 1 ≤ n) (hfl : f.length = n + 1)
+    (hmonic : lc f = 1) (hirr : Irreducible ((toPoly f).map (Int.castRingHom ℚ)))
+    (O : QMat) (hO : NTV.Round2.findIntegralBasis f = .ok O)
+    (t : Table) (ht : NTV.Ord.getMultTable O f = .ok t)
+    (p : Nat) (hp : p.Prime) (hlen : 2 ^ 64 ≤ p → f.length < 2 ^ 64)
+    (s : NTV.Draw.Stream) (res : List (HNF × Nat)) (h : decompose f O t (p : Int) s = .ok res) :
+    ∃ fs : Factors, factorizeModP f (p : Int) (wordOf p) s = .ok fs ∧ res.length = fs.length ∧
+      (∀ i (h1 : i < fs.length) (h2 : i < res.length),
+        res[i].2 = fs[i].2 ∧
+        NTV.Ideal.norm res[i].1 = (p : ℤ) ^ degU fs[i].1 ∧
+        capZ res[i].1 = .ok (p : ℤ) ∧
+        (∀ z : ℤ, z • e n ⟨0, hn⟩ ∈ Lat n res[i].1 ↔ (p : ℤ) ∣ z) ∧
+        Lat n res[i].1 ≠ ⊤ ∧
+        (∀ a b : Fin n → ℤ, star t n a b ∈ Lat n res[i].1 → a ∈ Lat n res[i].1 ∨ b ∈ Lat n res[i].1) ∧
+        (∀ L : Submodule ℤ (Fin n → ℤ), (∀ a : Fin n → ℤ, ∀ x ∈ L, star t n a x ∈ L) →
+          Lat n res[i].1 ≤ L → L = Lat n res[i].1 ∨ L = ⊤)) ∧
+      (∀ i j (hi : i < res.length) (hj : j < res.length), i ≠ j →
+        Lat n res[i].1 ⊔ Lat n res[j].1 = ⊤ ∧ res[i].1 ≠ res[j].1) ∧
+      (fs.map (fun x => x.2 * degU x.1)).sum = n ∧
+      ∃ Z : HNF, prodM t res = .ok Z ∧ principal t ((p : ℤ) :: List.replicate (n - 1) 0) = .ok Z := by
+  obtain ⟨hB, ⟨Cm, hC⟩, h0, t', ht', hT⟩ := maximal_order_setting f n hfl hmonic O hO
+  rw [ht] at ht'
+  cases ht'
+  obtain ⟨hdeg, _, hcanon⟩ := NTV.MaxOrd.coefAt_degU_of_monic f n hfl hmonic
+  have hirr' : Irreducible (NTV.Alg.modulus f) := by rw [NTV.Ord.modulus_eq_map]; exact hirr
+  obtain ⟨t', ht', _, T', hall⟩ := NTV.C16.maximal_order_integrally_closed f hcanon hirr' O hO
+  rw [ht] at ht'
+  cases ht'
+  rw [hdeg] at T' hall
+  exact kummer_dedekind f n hn hfl hmonic O hB Cm hC h0 t hT p hp hlen s res h hirr T' (hall T').2.2.2.2
+
+/-- likewise the product clause alone -/
+theorem product_is_p_maximal_order (f : List Int) (n : Nat) (hn : 1 ≤ n) (hfl : f.length = n + 1)
+    (hmonic : lc f = 1) (hirr : Irreducible ((toPoly f).map (Int.castRingHom ℚ)))
+    (O : QMat) (hO : NTV.Round2.findIntegralBasis f = .ok O)
+    (t : Table) (ht : NTV.Ord.getMultTable O f = .ok t)
+    (p : Nat) (hp : p.Prime) (hlen : 2 ^ 64 ≤ p → f.length < 2 ^ 64)
+    (s : NTV.Draw.Stream) (res : List (HNF × Nat)) (h : decompose f O t (p : Int) s = .ok res) :
+    ∃ Z : HNF, prodM t res = .ok Z ∧ principal t ((p : ℤ) :: List.replicate (n - 1) 0) = .ok Z := by
+  obtain ⟨_, _, _, _, _, _, hZ⟩ := kummer_dedekind_maximal_order f n hn hfl hmonic hirr O hO t ht p hp hlen s res h
+  exact hZ
+
+/-! ### non-vacuity: the Eisenstein integers (f = x² + 3, O = ℤ[(1+√−3)/2] ≠ ℤ[θ], index 2): 3 ramifies, 7 splits,
+5 is inert; p = 2 divides the index and is refused -/
+
+theorem eisenstein_irreducible : Irreducible ((toPoly ([3, 0, 1] : List Int)).map (Int.castRingHom ℚ)) := by
+  rw [← NTV.Ord.modulus_eq_map]; exact NTV.C16.eisenstein_irreducible
+
+theorem eis_ramified3 : decompose [3, 0, 1] [[1, 0], [1/2, 1/2]] NTV.C16.tEis ((3 : Nat) : Int) [] =
+    .ok [([[3, 0], [1, 1]], 2)] := by decide +kernel
+theorem eis_split7 : decompose [3, 0, 1] [[1, 0], [1/2, 1/2]] NTV.C16.tEis ((7 : Nat) : Int) [[0,0,0,0],[0,0,0,64]] =
+    .ok [([[7, 0], [2, 1]], 1), ([[7, 0], [4, 1]], 1)] := by decide +kernel
+theorem eis_inert5 : decompose [3, 0, 1] [[1, 0], [1/2, 1/2]] NTV.C16.tEis ((5 : Nat) : Int) [] =
+    .ok [([[5, 0], [0, 5]], 1)] := by decide +kernel
+example : decompose [3, 0, 1] [[1, 0], [1/2, 1/2]] NTV.C16.tEis ((2 : Nat) : Int) [] = .error "panic other" := by
+  decide +kernel
+
+example := maximal_order_setting [3, 0, 1] 2 rfl rfl _ NTV.C16.eisenstein_basis
+example := kummer_dedekind_maximal_order [3, 0, 1] 2 (by decide) rfl rfl eisenstein_irreducible _
+  NTV.C16.eisenstein_basis _ NTV.C16.eisenstein_table 3 (by norm_num) (fun h => by omega) _ _ eis_ramified3
+example := kummer_dedekind_maximal_order [3, 0, 1] 2 (by decide) rfl rfl eisenstein_irreducible _
+  NTV.C16.eisenstein_basis _ NTV.C16.eisenstein_table 7 (by norm_num) (fun h => by omega) _ _ eis_split7
+example := kummer_dedekind_maximal_order [3, 0, 1] 2 (by decide) rfl rfl eisenstein_irreducible _
+  NTV.C16.eisenstein_basis _ NTV.C16.eisenstein_table 5 (by norm_num) (fun h => by omega) _ _ eis_inert5
+
+/-- (3) = (3, 1 + ω)² in ℤ[ω]: through the theorem, and by evaluation -/
+example : ∃ Z : HNF, prodM NTV.C16.tEis [([[3, 0], [1, 1]], 2)] = .ok Z ∧
+    principal NTV.C16.tEis (((3 : Nat) : ℤ) :: List.replicate (2 - 1) 0) = .ok Z :=
+  product_is_p_maximal_order [3, 0, 1] 2 (by decide) rfl rfl eisenstein_irreducible _
+    NTV.C16.eisenstein_basis _ NTV.C16.eisenstein_table 3 (by norm_num) (fun h => by omega) _ _ eis_ramified3
+example : prodM NTV.C16.tEis [([[3, 0], [1, 1]], 2)] = .ok [[3, 0], [0, 3]] ∧
+    principal NTV.C16.tEis [3, 0] = .ok [[3, 0], [0, 3]] := by decide +kernel
+
+end MaximalOrder
+
+end NTV.C17
+
+/-! ## Panic-freedom under the hypotheses of the Kummer–Dedekind theorem -/
+namespace NTV.C17
+open NTV.Ideal NTV.KD NTV.PolyG
+open NTV.RowOps (toM Rect)
+
+/-- **C17 panic-freedom.** f monic of degree n ≥ 1 (fewer than 2⁶⁴ coefficients), O ⊇ ℤ[θ] an order given by a
+basis matrix B with an integral inverse Cm (so (O : ℤ[θ]) = det Cm) and first basis vector 1, t its
+multiplication table, p a prime NOT dividing the index (otherwise the routine refuses with an explicit panic,
+`refuses_when_p_divides_index`): for EVERY draw stream a run of `decompose` that does not return fails with
+`inconclusive stream` (the random chunks for `factorize_mod_p` ran out — not a behaviour of the code).
+No Rust panic is possible: the power-basis order and the index are computed without error (the index is the
+integer det Cm), the modular factorisation is called on legal input (C08), and for every modular factor g
+the closure succeeds: `to_z_basis_int` finds an integral solution (g(θ) ∈ ℤ[θ] ⊆ O), `Ideal::principal` and
+the sum of ideals are total. -/
+theorem no_panic (f : List Int) (n : Nat) (hn : 1 ≤ n) (hfl : f.length = n + 1) (hmonic : lc f = 1)
+    (B : QMat) (hB : Rect n n B) (Cm : Matrix (Fin n) (Fin n) ℤ)
+    (hC : Cm.map (Int.castRingHom ℚ) * toM n n B = 1)
+    (h0 : B.getD 0 [] = 1 :: List.replicate (n - 1) 0)
+    (t : Table) (ht : NTV.Ord.IsTable f B n t)
+    (p : Nat) (hp : p.Prime) (hidx : ¬ (p : ℤ) ∣ Cm.det) (hlen : f.length < 2 ^ 64)
+    (s : NTV.Draw.Stream) (e : String) (h : decompose f B t (p : Int) s = .error e) :
+    e = "inconclusive stream" :=
+  decompose_no_panic hn hfl hmonic hB hC h0 ht p hp hidx hlen s e h
+
+/-- the closure (g, e) ↦ ((g(θ)) + (p), e) is total for every integer polynomial g (under the same hypotheses
+on the order) -/
+theorem prime_above_total (f : List Int) (n : Nat) (hn : 1 ≤ n) (hfl : f.length = n + 1) (hmonic : lc f = 1)
+    (B : QMat) (hB : Rect n n B) (Cm : Matrix (Fin n) (Fin n) ℤ)
+    (hC : Cm.map (Int.castRingHom ℚ) * toM n n B = 1)
+    (h0 : B.getD 0 [] = 1 :: List.replicate (n - 1) 0)
+    (t : Table) (ht : NTV.Ord.IsTable f B n t) (p : Int) (g : List Int) (m : Nat) :
+    ∃ r, primeAbove f B t p g m = .ok r := by
+  have hemp : f.isEmpty = false := by cases f <;> simp_all
+  exact primeAbove_total (tableRing_of hn hfl hmonic hB hC ht h0) (by simp [degU, hemp, hfl]) hB hC p g m
+
+/-! non-vacuity: ℤ[√-5], p = 3 (index 1): the hypotheses hold (`id2_rect`, `id2_inv`, `t5_isTable`); with an
+empty stream the run is inconclusive, with exactly this message -/
+example : ∀ s e, decompose [5, 0, 1] [[1, 0], [0, 1]] NTV.C16.t5 ((3 : Nat) : Int) s = .error e →
+    e = "inconclusive stream" :=
+  fun s e h => no_panic [5, 0, 1] 2 (by decide) rfl rfl _ id2_rect 1 id2_inv rfl _ t5_isTable 3 (by norm_num)
+    (by simp) (by decide) s e h
+example : decompose [5, 0, 1] [[1, 0], [0, 1]] NTV.C16.t5 3 [] = .error "inconclusive stream" := by decide +kernel
 
 end NTV.C17
